@@ -4,3 +4,4 @@ mod host;
 mod machine;
 mod ctl_io;
 mod input;
+mod sna;
